@@ -32,6 +32,9 @@ impl std::error::Error for InnerErr {}
 enum E {
     P,
     D(Vec<u8>),
+    /// a data chunk that is one whole frame: flag, payload length, payload fill byte
+    /// (printed compactly for Coq as `frame flag (rep n fill)`)
+    Fr(u8, usize, u8),
     T(Vec<(String, Vec<u8>)>),
     X,
 }
@@ -47,6 +50,7 @@ fn to_ev(e: &E) -> Ev<InnerErr> {
     match e {
         E::P => Ev::Pending,
         E::D(d) => Ev::Data(d.clone()),
+        E::Fr(f, n, b) => Ev::Data(frame(*f, &vec![*b; *n])),
         E::T(t) => Ev::Trailers(pairs_to_map(t)),
         E::X => Ev::Err(InnerErr),
     }
@@ -55,6 +59,7 @@ fn ev_coq(e: &E) -> String {
     match e {
         E::P => "EvPending".into(),
         E::D(d) => format!("(EvData {})", coq_bytes(d)),
+        E::Fr(f, n, b) => format!("(EvData (frame {} (rep {} {})))", f, n, b),
         E::T(t) => format!("(EvTrailers {})", coq_hm(&pairs_to_map(t))),
         E::X => "EvErr".into(),
     }
@@ -74,6 +79,7 @@ fn ev_json(e: &E) -> Value {
     match e {
         E::P => json!("p"),
         E::D(d) => json!({ "d": hex(d) }),
+        E::Fr(f, n, b) => json!({ "frame": [f, n, b] }),
         E::T(t) => json!({ "t": pairs_json(t) }),
         E::X => json!("x"),
     }
@@ -85,6 +91,8 @@ fn ev_from_json(v: &Value) -> E {
         E::X
     } else if let Some(d) = v.get("d") {
         E::D(unhex(d.as_str().unwrap()))
+    } else if let Some(f) = v.get("frame") {
+        E::Fr(f[0].as_u64().unwrap() as u8, f[1].as_u64().unwrap() as usize, f[2].as_u64().unwrap() as u8)
     } else {
         E::T(pairs_from_json(&v["t"]))
     }
@@ -955,6 +963,197 @@ fn request_case(kind: &str, r: &mut Rng, payload: &[u8], text: bool, cuts: &[usi
     );
 }
 
+// ------------------------------------------------------------------ size-boundary mining
+/// Every integer constant >= 64 of the non-test part of tonic-web/src/{call,service}.rs: literals
+/// (decimal, hex, binary, `_` separators, type suffixes) and products / shifts of literals such as
+/// `8 * 1024` or `1 << 13`.  Thresholds that appear in the code later are picked up by themselves.
+fn mine_constants() -> Vec<usize> {
+    let repo = std::env::var("VERIF_REPO").unwrap_or_else(|_| "/repo".to_string());
+    let mut ks = std::collections::BTreeSet::new();
+    for f in ["tonic-web/src/call.rs", "tonic-web/src/service.rs", "tonic-web/src/client.rs"] {
+        let Ok(src) = std::fs::read_to_string(format!("{}/{}", repo, f)) else { continue };
+        let src = src.split("#[cfg(test)]").next().unwrap_or("").to_string();
+        // drop comments and string literals
+        let mut clean = String::new();
+        for line in src.lines() {
+            let line = line.split("//").next().unwrap_or("");
+            let mut in_str = false;
+            for c in line.chars() {
+                if c == '"' {
+                    in_str = !in_str;
+                    clean.push(' ');
+                } else if !in_str {
+                    clean.push(c);
+                } else {
+                    clean.push(' ');
+                }
+            }
+            clean.push('\n');
+        }
+        // tokens: numbers and operators
+        let b: Vec<char> = clean.chars().collect();
+        let mut toks: Vec<Result<u64, char>> = vec![];
+        let mut i = 0;
+        while i < b.len() {
+            let c = b[i];
+            if c.is_ascii_digit() && (i == 0 || !(b[i - 1].is_alphanumeric() || b[i - 1] == '_')) {
+                let mut j = i;
+                while j < b.len() && (b[j].is_alphanumeric() || b[j] == '_') {
+                    j += 1;
+                }
+                let t: String = b[i..j].iter().filter(|c| **c != '_').collect();
+                let t = t.trim_end_matches("usize").trim_end_matches("u64").trim_end_matches("u32").trim_end_matches("u16").trim_end_matches("u8").trim_end_matches("i32").to_string();
+                let v = if let Some(h) = t.strip_prefix("0x") {
+                    u64::from_str_radix(h, 16).ok()
+                } else if let Some(h) = t.strip_prefix("0b") {
+                    u64::from_str_radix(h, 2).ok()
+                } else {
+                    t.parse::<u64>().ok()
+                };
+                if let Some(v) = v {
+                    toks.push(Ok(v));
+                }
+                i = j;
+            } else if c == '*' {
+                toks.push(Err('*'));
+                i += 1;
+            } else if c == '<' && i + 1 < b.len() && b[i + 1] == '<' {
+                toks.push(Err('<'));
+                i += 2;
+            } else if c.is_whitespace() {
+                i += 1;
+            } else {
+                toks.push(Err('.'));
+                i += 1;
+            }
+        }
+        let mut k = 0;
+        while k < toks.len() {
+            if let Ok(mut v) = toks[k] {
+                ks.insert(v);
+                while k + 2 < toks.len() {
+                    match (toks[k + 1], toks[k + 2]) {
+                        (Err('*'), Ok(w)) => {
+                            ks.insert(w);
+                            v = v.saturating_mul(w);
+                        }
+                        (Err('<'), Ok(w)) if w < 40 => v <<= w,
+                        _ => break,
+                    }
+                    k += 2;
+                }
+                ks.insert(v);
+            }
+            k += 1;
+        }
+    }
+    let mut v: Vec<usize> = ks.into_iter().filter(|k| *k >= 64 && *k <= (1 << 20)).map(|k| k as usize).collect();
+    v.sort();
+    // the largest thresholds matter most; bound the work
+    if v.len() > 6 {
+        v = v[v.len() - 6..].to_vec();
+    }
+    v
+}
+/// the sizes worth trying around a threshold K
+fn sizes_around(k: usize, dense: bool) -> Vec<usize> {
+    let mut v: Vec<usize> = vec![];
+    let lo = k.saturating_sub(70);
+    v.extend(lo..=k + 10);
+    let w = if dense { 12 } else { 6 };
+    for c in [k * 3 / 4, k * 4 / 3, k / 2, k * 2] {
+        v.extend(c.saturating_sub(w)..=c + w);
+    }
+    v.sort();
+    v.dedup();
+    v
+}
+/// trailers whose frame is 43 bytes, about 300 bytes, and longer than `k`
+fn sized_trailers(which: usize, k: usize) -> Pairs {
+    match which {
+        0 => vec![(s("grpc-status"), b"0".to_vec()), (s("grpc-message"), b"12345678".to_vec())], // 5+15+23 = 43
+        1 => vec![(s("grpc-status"), b"13".to_vec()), (s("grpc-message"), vec![b'm'; 262])],
+        _ => vec![(s("grpc-status"), b"2".to_vec()), (s("x-pad"), vec![b'p'; k + 50])],
+    }
+}
+/// one gRPC response of a message with an `n`-byte payload through the layer; `layout` 0 = the
+/// frame is one inner chunk, 1 = header and payload are separate chunks, 2 = the payload arrives
+/// in two halves; read by the plain consumer or by the hyper-like one
+fn sized_response(kind: &str, n: usize, layout: usize, trailers: &Pairs, accept: Option<&str>, hyper: bool,
+                  pend: &mut Vec<Pending>, out: &mut Out) {
+    let fill = 0x61u8;
+    let msgs = frame(0, &vec![fill; n]);
+    let mut revs = match layout {
+        0 => vec![E::Fr(0, n, fill)],
+        1 => vec![E::D(msgs[..5].to_vec()), E::D(vec![fill; n])],
+        _ => vec![E::D(msgs[..5].to_vec()), E::D(vec![fill; n / 2]), E::P, E::D(vec![fill; n - n / 2])],
+    };
+    revs.push(E::T(trailers.clone()));
+    let m = pairs_to_map(trailers);
+    let listed: Pairs = m.iter().map(|(k, v)| (k.as_str().to_string(), v.as_bytes().to_vec())).collect();
+    out.hist("sized.response.consumer", if hyper { "hyper-like" } else { "poll-until-none" });
+    if hyper {
+        hyper_case_revs(kind, accept, &revs, 1, false, &msgs, &listed, pend, out);
+    } else {
+        let mut h = vec![(s("content-type"), WEB_TYPES[0].as_bytes().to_vec())];
+        if let Some(a) = accept {
+            h.push((s("accept"), a.as_bytes().to_vec()));
+        }
+        let c = Call { method: s("POST"), version: 2, headers: h, qevs: vec![], rstatus: 200, rheaders: vec![], revs };
+        do_call(kind, &c, &Promise { req_payload: Some(vec![]), resp: Some((msgs, listed)) }, pend, out);
+    }
+}
+fn mined_sizes(r: &mut Rng, thorough: bool, pend: &mut Vec<Pending>, out: &mut Out) -> Vec<usize> {
+    let ks = mine_constants();
+    for &k in &ks {
+        out.hist("sized.mined_constant", k);
+        for (idx, n) in sizes_around(k, thorough).into_iter().enumerate() {
+            // always: text mode, hyper-like consumer, every trailers size on the dense range
+            let near = n + 80 >= k && n <= k + 10;
+            for tw in 0..3usize {
+                if !(thorough || near || idx % 4 == 0) {
+                    continue;
+                }
+                if !thorough && tw == 2 && idx % 3 != 0 {
+                    continue;
+                }
+                let tl = sized_trailers(tw, k);
+                sized_response("eos.response_sized", n, (idx + tw) % 3, &tl, Some(WEB_TYPES[2]), true, pend, out);
+                if (thorough && (idx + tw) % 2 == 0) || (idx + tw) % 5 == 0 {
+                    sized_response("eos.response_sized", n, idx % 3, &tl, Some(WEB_TYPES[0]), true, pend, out);
+                    sized_response("response.sized", n, idx % 3, &tl, Some(WEB_TYPES[3]), false, pend, out);
+                    sized_response("response.sized", n, (idx + 1) % 3, &tl, None, false, pend, out);
+                }
+            }
+            // requests of that size: text (base64) and binary, plain and hyper-like
+            if (thorough && idx % 3 == 0) || idx % 6 == 0 {
+                let p = frame(0, &vec![0u8; n]);
+                let w = b64(&p);
+                let cuts: Vec<usize> = [k.min(w.len().saturating_sub(1)), (k * 4 / 3).min(w.len().saturating_sub(1))]
+                    .into_iter()
+                    .filter(|c| *c > 0)
+                    .collect::<std::collections::BTreeSet<_>>()
+                    .into_iter()
+                    .collect();
+                request_case("request.sized_text", r, &p, true, &cuts, false, pend, out);
+                request_hyper_case("eos.request_text_sized", r, Some(&p), &w, &cuts, 1, pend, out);
+                let bc: Vec<usize> = [5usize, k.min(p.len() - 1)].into_iter().filter(|c| *c > 0 && *c < p.len()).collect::<std::collections::BTreeSet<_>>().into_iter().collect();
+                request_case("request.sized_binary", r, &p, false, &bc, false, pend, out);
+            }
+        }
+    }
+    // uniform sweep of sizes up to three times the largest threshold
+    let maxk = ks.iter().copied().max().unwrap_or(8192);
+    let n_sweep = if thorough { 400 } else { 120 };
+    for i in 0..n_sweep {
+        let n = r.below(3 * maxk as u64 + 1) as usize;
+        let tl = sized_trailers(r.below(3) as usize, *r.pick(&ks));
+        let acc = *r.pick(&[Some(WEB_TYPES[2]), Some(WEB_TYPES[2]), Some(WEB_TYPES[0]), None]);
+        sized_response(if i % 3 == 0 { "response.sized_sweep" } else { "eos.response_sized_sweep" }, n, r.below(3) as usize, &tl, acc, i % 3 != 0, pend, out);
+    }
+    ks
+}
+
 fn all_cut_sets(n: usize) -> Vec<Vec<usize>> {
     if n == 0 {
         return vec![vec![]];
@@ -1149,6 +1348,7 @@ fn main() {
     let mut out = Out::new(&a.out);
     let mut r = Rng::new(a.seed);
     let mut pend: Vec<Pending> = vec![];
+    let mut mined = json!([]);
 
     if let Some(f) = &a.replay {
         let v: Value = serde_json::from_str(&std::fs::read_to_string(f).unwrap()).unwrap();
@@ -1265,6 +1465,9 @@ fn main() {
                 request_hyper_case("observe.eos_request_text_leftover", &mut r, None, &w2, &cuts, 1, &mut pend, &mut out);
             }
         }
+        // ---- sizes around every numeric threshold of the source ------------------------------------
+        let ks = mined_sizes(&mut r, t, &mut pend, &mut out);
+        mined = json!(ks);
         // ---- frame lengths >= 65536, chunks above 8 KiB (BUFFER_SIZE) ------------------------------
         let t0 = vec![(s("grpc-status"), b"0".to_vec())];
         for (n, fill) in [(65_536usize, 0u8), (70_000, 0), (65_535, 0), (66_000, 7)] {
@@ -1341,6 +1544,7 @@ fn main() {
         }
     }
     let mut decoded = 0u64;
+    let mut done: Vec<Option<Case>> = vec![];
     for (i, mut p) in pend.into_iter().enumerate() {
         if p.py.is_some() && p.case.oracle.is_none() {
             match verdicts.get(&i) {
@@ -1349,11 +1553,22 @@ fn main() {
                 None => p.case.oracle = Some("the python oracle did not run".to_string()),
             }
         }
-        out.push(p.case);
+        done.push(Some(p.case));
+    }
+    // The driver evaluates the model in 16 shards of consecutive cases; the large sized cases are
+    // generated in one block, so the cases are written in a stride-16 order (case i of the run
+    // goes to shard i mod 16) to keep the shards balanced.  The order carries no meaning.
+    let n = done.len();
+    for j in 0..16 {
+        let mut i = j;
+        while i < n {
+            out.push(done[i].take().unwrap());
+            i += 16;
+        }
     }
     out.finish(
         IMPORTS,
         "calls through the real GrpcWebLayer over a recording inner service: corpus; the (method x version x content-type) table (11 methods x 5 versions x 16 content-type settings); responses = 0-4 message frames cut at arbitrary positions of the inner body (every cut set for small streams), Pending anywhere, trailers with repeated names / ':' / spaces, Accept in {absent, 4 grpc-web types, others}; requests = binary and base64 text bodies cut at arbitrary positions (every cut set for small payloads, every single / double cut of a longer one), Pending anywhere; observe.* = inputs the property text does not decide (malformed text, multi-segment text, body errors, missing trailers). Oracle: oracle/grpcweb.py decodes every translated response body (python base64 + struct), request bytes / content-type / status table computed in the harness. Non-trivial = a body is present or the case is not a translation; distinct = distinct (kind, model expression).",
-        json!({"python_oracle_ran": oracle_ran, "response_bodies_decoded_by_python": decoded}),
+        json!({"python_oracle_ran": oracle_ran, "response_bodies_decoded_by_python": decoded, "mined_size_thresholds": mined}),
     );
 }
